@@ -113,7 +113,18 @@ class LinkModel(explorer.Model):
             x, rest = k.split('.', 1)
             ref[ren(int(x)) + '.' + rest] = owner.get(v, v)
         dead = sorted(name[i.idx] for i in w.ref.insts if not i.alive)
-        return json.dumps([pool, nav, ref, dead, sorted(n.items())], sort_keys=True, default=repr)
+        # implementation-only state: which instances own an entry in each directed link (an empty entry left behind by a
+        # rejected or undone call is invisible to navigation but changes what later calls do)
+        proxy = None
+        try:
+            proxy = []
+            for ukind in sorted(w.m.metaclasses):
+                for key, link in sorted(w.m.metaclasses[ukind].links.items(), key=repr):
+                    owners = sorted(name.get(w.label.get(inst), '?') + ('' if len(link[inst]) else ':empty') for inst in link.keys())
+                    proxy.append([ukind, repr(key), owners])
+        except Exception:
+            proxy = None
+        return json.dumps([pool, nav, ref, dead, sorted(n.items()), proxy], sort_keys=True, default=repr)
 
     # -- menu --------------------------------------------------------------
     def enabled(self, w):
